@@ -25,7 +25,7 @@ from mcheck.oracles import types as O
 ID = "C01"
 KS = [0, 1, 2, 3, 10]
 FLAGS = [[], ["--ignore-existing-annotations"], ["--omit-existing-annotations"], ["--disable-type-rewriting"]]
-FKINDS = ["function", "method", "generator", "generator_ret", "coroutine", "classmethod", "annotated", "generator_alt", "function_alt"]
+FKINDS = ["function", "method", "generator", "generator_ret", "coroutine", "classmethod", "annotated", "generator_alt", "function_alt", "generator_seq"]
 RULE = (
     "histories = every depth-1 grammar value alone + every unordered pair over 45 representative values (thorough: + "
     "depth-2 values and triples), each bound to its own generated function (7 function kinds in rotation, one parameter "
@@ -65,6 +65,9 @@ def histories(tier: str) -> List[Tuple[str, ...]]:
         ("{1: 0}", "{'a': 0}", "{1.5: 0}", "{None: 0}", "{(0,): 0}", "{b'x': 0}"),
         ("0", "[0]", "(0,)", "{0}", "{'a': 0}", "defaultdict(int)", "len", "int"),
         ("None", "[]", "()", "set()", "{}", "defaultdict(int)"),
+        ("DA()", "DB()", "DC()", "DD()", "DE()", "DF()", "None"),
+        ("None", "DF()", "DE()", "DD()", "DC()", "DB()", "DA()", "0"),
+        ("[DA()]", "[DB()]", "[DC()]", "[DD()]", "[DE()]", "[DF()]", "[None]"),
     ]
     if tier == "thorough":
         hs += [(e,) for e in V.depth2(quick=True)]
@@ -95,6 +98,9 @@ def gen_module(modname: str, hs: List[Tuple[str, ...]], base: int) -> Tuple[str,
             L += [f"def {fn}({pn}):", "    yield _NEXT[0]", ""]
         elif kind == "function_alt":
             L += [f"def {fn}({pn}):", "    return _NEXT[0]", ""]
+        elif kind == "generator_seq":
+            # ONE call yields every value of the history (and returns the last one)
+            L += [f"def {fn}({pn}):", "    last = None", "    for last in _NEXT[0]:", "        yield last", "    return last", ""]
         elif kind == "method":
             methods += [f"    def {fn}(self, {pn}):", f"        return {pn}", ""]
         elif kind == "classmethod":
@@ -108,6 +114,17 @@ def drive(M, metas: List[Dict[str, Any]], observed: Dict[str, Dict[str, List[Any
     """Run every history; remember (by reference) what was really passed / returned / yielded at every position."""
     for m in metas:
         obs = observed.setdefault(m["fn"], {"param": [], "return": [], "yield": []})
+        if m["kind"] == "generator_seq":
+            vals = [V.ev(e) for e in m["history"]]
+            M._NEXT[0] = vals
+            obs["param"].append(0)
+            g = getattr(M, m["fn"])(0)
+            try:
+                while True:
+                    obs["yield"].append(next(g))
+            except StopIteration as st:
+                obs["return"].append(st.value)
+            continue
         for e in m["history"]:
             v = V.ev(e)
             kind = m["kind"]
@@ -208,7 +225,7 @@ def judge_stub(text: str, M, metas, observed, flag: List[str]) -> List[Tuple[str
                     out.append(("unresolved", sig_of("annotation-unresolved"), m["fn"], f"{m['fn']} return: {R.msg}"))
                 continue
             k = O.classify(R)
-            is_gen = m["kind"] in ("generator", "generator_ret", "generator_alt")
+            is_gen = m["kind"] in ("generator", "generator_ret", "generator_alt", "generator_seq")
             if is_gen and k[0] == "generic" and k[1] in (collections.abc.Iterator, collections.abc.Generator, collections.abc.Iterable) and k[2]:
                 Y = k[2][0]
                 for v in obs["yield"]:
@@ -329,6 +346,40 @@ def run_module(res: Result, ctx: Ctx, mi: int, hs: List[Tuple[str, ...]], srcdir
             for kind, sig, fn, msg in judge_stub(out.getvalue(), M, [m], observed, [])[:2]:
                 res.violate(Violation(ID, kind, sig if sig.startswith("typed-dict") else "single:" + sig, case, "alone in its stub: " + msg))
         res.oblige("single-function-stubs", True)
+    # more stored calls than the query limit, few distinct ones: the rarely seen value still belongs to the annotation
+    if (only is None and mi % 4 == 0) or (only and only[2] == -2):
+        fm = [m for m in metas if m["kind"] in ("function", "method", "classmethod")][mi % 3:][:1]
+        for lim in (3, 4):
+            db = str(srcdir / f"{modname}_lim{lim}.sqlite3")
+            if os.path.exists(db):
+                os.unlink(db)
+            mcfg.reset(db=db, k=0, filter=lambda code: code.co_filename in files, limit=lim)
+            observed = {}
+            rare = {"fn": None}
+            with monkeytype.trace(mcfg.CONFIG):
+                for m in fm:
+                    tgt_ = M.K() if m["kind"] == "method" else (M.K if m["kind"] == "classmethod" else M)
+                    f = getattr(tgt_, m["fn"])
+                    obs = observed.setdefault(m["fn"], {"param": [], "return": [], "yield": []})
+                    for v in [0] * 5 + ["rare"] + [0] * 5 + [1.5]:
+                        obs["param"].append(v)
+                        obs["return"].append(f(v))
+            out, err = io.StringIO(), io.StringIO()
+            res.states += 1
+            res.evaluations += 1
+            res.validated += 1
+            res.transitions += 3 * len(fm)
+            case = {"module": mi, "k": 0, "rewriter": "DEFAULT", "flag": -2, "tier": ctx.tier, "limit": lim}
+            try:
+                rc = cli.main(["-c", "mcfg:fresh()", "stub", modname], out, err)
+            except BaseException as e:  # noqa: BLE001
+                res.violate(Violation(ID, "exception", "stub-with-small-limit", case, f"stub raised {e!r}"))
+                continue
+            # one function, three distinct rows, query limit >= 3 (the limit counts rows of the whole module)
+            if lim >= 3:
+                for kind, sig, fn, msg in judge_stub(out.getvalue(), M, fm, observed, [])[:2]:
+                    res.violate(Violation(ID, kind, "many-duplicate-calls:" + sig, dict(case, fn=fn), f"12 stored calls, 3 distinct, query limit {lim}: " + msg))
+        res.oblige("duplicate-heavy-store", True)
     del sys.modules[modname]
 
 
@@ -357,6 +408,7 @@ def run(ctx: Ctx) -> Result:
     for i in range(len(FLAGS)):
         res.obligations.setdefault(f"flag:{i}", False)
     res.obligations.setdefault("single-function-stubs", False)
+    res.obligations.setdefault("duplicate-heavy-store", False)
     res.bounds.update({"histories": sum(len(m) for m in ms), "modules": len(ms), "k": KS, "rewriters": 7, "flags": 4})
     return res
 
